@@ -118,12 +118,17 @@ impl Selector {
             // it's safe to remove the timer since we are running the timer_list in the same thread
             #[cfg(feature = "io_timeout")]
             data.timer.borrow_mut().take().map(|h| {
-                #[cfg(may_verif)]
-                data.io_flag.mark("t.disarm", 0, 0);
                 unsafe {
                     // tell the timer handler not to cancel the io
                     // it's not always true that you can really remove the timer entry
                     h.with_mut_data(|value| value.data.event_data = std::ptr::null_mut());
+                }
+                // (1 = the entry still held its value when it was nulled: it can only pop as a no-op; 0 = the timer thread had popped it before)
+                #[cfg(may_verif)]
+                {
+                    let mut live = 0u64;
+                    unsafe { h.with_mut_data(|_| live = 1) };
+                    data.io_flag.mark("t.disarm", 0, live);
                 }
                 h.remove()
             });
@@ -208,14 +213,19 @@ impl Selector {
     pub fn del_fd(&self, io_data: &IoData) {
         #[cfg(feature = "io_timeout")]
         if let Some(h) = io_data.timer.borrow_mut().take() {
-            #[cfg(may_verif)]
-            io_data.io_flag.mark("t.disarm", 1, 0);
             unsafe {
                 // mark the timer as removed if any, this only happened
                 // when cancel an IO. what if the timer expired at the same time?
                 // because we run this func in the user space, so the timer handler
                 // will not got the coroutine
                 h.with_mut_data(|value| value.data.event_data = std::ptr::null_mut());
+            }
+            // (1 = the entry still held its value when it was nulled: it can only pop as a no-op; 0 = the timer thread had popped it before)
+            #[cfg(may_verif)]
+            {
+                let mut live = 0u64;
+                unsafe { h.with_mut_data(|_| live = 1) };
+                io_data.io_flag.mark("t.disarm", 1, live);
             }
         }
 
